@@ -172,22 +172,29 @@ def chains(case):
     if not same_meaning(m0, m1) or not same_meaning(mref, m1):
         raise Violation("fill_in_map-changes-meaning", f"reference {show(mref)}\nbefore {show(m0)}\nafter  {show(m1)}\n--- program:\n{text}")
     # alias fill-in BEFORE macro expansion may refuse (a body that indexes by a parameter cannot
-    # be resolved yet), but an answer must be right: expanding it afterwards gives the same qubits
-    st_, early = guard(fill_in_map, c, what="fill_in_map (unexpanded)")
-    if st_ == "ok":
-        st_, ee = guard(lambda: fill_in_let(expand_macros(early)), what="expand after early fill_in_map")
-        if st_ == "err":
-            raise Violation("fill_in_map", f"the result of fill_in_map on the unexpanded circuit cannot be expanded: {ee}\n--- program:\n{text}", where="early")
-        tail_e = list(ee.body.statements)[len(refs) + len(nested) :]
-        flat_e = []
-        for s_ in tail_e:
-            flat_e.extend(extract.find_objects(s_, lambda x: isinstance(x, NamedQubit)) if not hasattr(s_, "parameters") else [_qubit_of(s_)])
-        got_e = []
-        for q_ in flat_e:
-            rq = q_.resolve_qubit()
-            got_e.append(rq[1] if rq[0].name == regname else None)
-        if got_e != call_expected:
-            raise Violation("fill_in_map", f"fill_in_map before macro expansion changes the qubits of the macro calls: {got_e}, expected {call_expected}\n--- program:\n{text}", where="early")
+    # be resolved yet), but an answer must be right: expanding it afterwards gives the same
+    # qubits.  (A variant of the program without whole aliases as macro arguments, which the
+    # pass always refuses.)
+    vix = [(m_, [k_ for s_, k_ in zip(calls, call_expected) if s_[1] == m_["name"]]) for m_ in macros if m_["name"].startswith("vix")]
+    if vix:
+        pe_ = dict(prog)
+        pe_["macros"] = [m_ for m_, _ks in vix]
+        pe_["body"] = [s_ for s_ in calls if s_[1].startswith("vix")]
+        want_e = [k_ for s_, k_ in zip(calls, call_expected) if s_[1].startswith("vix")]
+        te_ = render.to_text(pe_)
+        st_, ce_ = guard(parse, te_, inject_pulses=nat, what="parse")
+        if st_ == "ok":
+            st_, early = guard(fill_in_map, ce_, what="fill_in_map (unexpanded)")
+            if st_ == "ok":
+                st_, ee = guard(lambda: fill_in_let(expand_macros(early)), what="expand after early fill_in_map")
+                if st_ == "err":
+                    raise Violation("fill_in_map", f"the result of fill_in_map on the unexpanded circuit cannot be expanded: {ee}\n--- program:\n{te_}", where="early")
+                got_e = []
+                for q_ in extract.find_objects(ee, lambda x: isinstance(x, NamedQubit), include_header=False):
+                    rq = q_.resolve_qubit()
+                    got_e.append(rq[1] if rq[0].name == regname else None)
+                if got_e != want_e:
+                    raise Violation("fill_in_map", f"fill_in_map before macro expansion changes the qubits of the macro calls: {got_e}, expected {want_e}\n--- program:\n{te_}", where="early")
     # macro calls analysed WITHOUT expansion (the analysis binds the arguments itself)
     call_objs = list(c.body.statements)[len(refs) + len(nested) :]
     for s_obj, s_model, k in zip(call_objs, calls, call_expected):
